@@ -201,8 +201,7 @@ class Check:
             self.proof = res
             return res
         with Lock(os.path.join(COQ, ".lock")):
-            if not os.path.exists(os.path.join(COQ, "Makefile")):
-                sh(["coq_makefile", "-f", "_CoqProject", "-o", "Makefile"], cwd=COQ, timeout=120)
+            sh([sys.executable, os.path.join(VERIF, "bin", "mkcoqproject")], timeout=120)
             vo = os.path.join(COQ, pf + "o")
             if os.path.exists(vo):
                 os.remove(vo)
